@@ -85,11 +85,11 @@ def canon_call(t):
         sig, defaults = SIGS.get(f[1]), DEFAULTS.get(f[1], {})
     elif head(f) == "attr":
         sig, defaults = METHOD_SIGS.get(f[2]), METHOD_DEFAULTS.get(f[2], {})
+    # option dictionaries passed with ** are compared by content:  f(**dict(d))  ==  f(**d)
+    if any(k == "**" and head(strip(v)) != "dmerge" for k, v in t[3]):
+        kws = tuple((k, (dict_rewrite(("dict", ((("dictstar",), v),))) if k == "**" and head(strip(v)) != "dmerge" else v)) for k, v in t[3])
+        t = ("call", t[1], t[2], kws)
     if sig is None:
-        # option dictionaries passed with ** are compared by content:  f(**dict(d))  ==  f(**d)
-        if any(k == "**" for k, _ in t[3]):
-            kws = tuple((k, (dict_rewrite(("dict", ((("dictstar",), v),))) if k == "**" and head(strip(v)) != "dmerge" else v)) for k, v in t[3])
-            return ("call", t[1], t[2], kws)
         return t
     if any(head(a) == "star" for a in args) or len(args) > len(sig):
         return t
@@ -146,6 +146,10 @@ def dict_rewrite(t):
         cur = [(const(k), v) for k, v in t[4] if k != "**"]
         if cur:
             layers.append(("lit", tuple(cur)))
+    elif h == "dmerge" and any(l[0] == "ref" and head(strip(l[1])) == "dmerge" for l in t[1]):
+        layers = []
+        for l in t[1]:
+            layers.extend(_layers(l[1]) if l[0] == "ref" else [l])
     if layers is None:
         return t
     return ("dmerge", _squash(layers))
